@@ -1,11 +1,13 @@
 \* C20 negative config: the response is parsed with scripting disabled (noscript content becomes markup): TLC must reject DocumentOnlyAppendedTo.
 CONSTANTS
   UnsupportedRule = "pass"
+  HeadRule = "pass"
+  CtRule = "caseinsensitive"
   ParseRule = "noscripting"
   CspRule = "policylist"
   LengthRule = "set"
   EmitCases = FALSE
 INIT Init
 NEXT Next
-INVARIANTS TypeOK PassThroughIsIdentity HtmlGetsExactlyOneScript DocumentOnlyAppendedTo LengthMatchesBody EncodingHeaderDescribesBody
+INVARIANTS TypeOK PassThroughIsIdentity HtmlGetsExactlyOneScript DocumentOnlyAppendedTo LengthMatchesBody EncodingHeaderDescribesBody HeadIsUntouched
 CHECK_DEADLOCK FALSE
